@@ -527,6 +527,47 @@ def f_mem_mutant_pairs(deltas=(0, 1, 32), ops=("MSTORE", "MSTORE8", "MLOAD", "SS
     return out
 
 
+def f_mem_move_pairs(deltas=(0, 8, 16, 24), length=4, store_ops=("MSTORE",), load_ops=("MLOAD",), n_stores=(2,)):
+    """pairs (B, B') where B' moves ONE memory operation of B to another place without changing the relative order of
+    the loads (so both leave their results in the same stack positions): whether the two are equivalent depends on which
+    byte ranges overlap -- exactly what the checker's dependency comparison has to decide"""
+    atoms = [0x80 + d for d in deltas]
+    out = []
+    for kinds in itertools.product("SL", repeat=length):
+        if kinds.count("S") not in n_stores:
+            continue
+        for sop in store_ops:
+            for lop in load_ops:
+                for addrs in itertools.product(atoms, repeat=length):
+                    base = []
+                    vi = 0
+                    for k, a in zip(kinds, addrs):
+                        if k == "S":
+                            base.append((sop, a, vi))
+                            vi += 1
+                        else:
+                            base.append((lop, a, 0))
+                    b = compile_mem_sequence(base)
+                    for i in range(length):
+                        for jpos in range(length):
+                            if jpos == i:
+                                continue
+                            seq = list(base)
+                            x = seq.pop(i)
+                            seq.insert(jpos, x)
+                            if [s for s in seq if s[0] == lop] != [s for s in base if s[0] == lop]:
+                                continue
+                            if seq == base:
+                                continue
+                            out.append((b, compile_mem_sequence(seq), "move"))
+    seen, uniq = set(), []
+    for p in out:
+        if p[:2] not in seen:
+            seen.add(p[:2])
+            uniq.append(p)
+    return uniq
+
+
 # ------------------------------------------------------------------------------------------ F-real
 
 def f_real_documents():
